@@ -125,8 +125,20 @@ def handleC07 (op : String) (input impl : Json) : Except String Json := do
           let hs ← hashesOf (fldD c "hashes" (Json.arr #[]))
           pure (tableInv Facts.blockSize (fullTableOf t hs))
         | .error _ => pure [])
+      -- one block index per block of the received table, each held by the destination with the source's
+      -- bytes: a block index is a function of (block rows, primary key), so the very same block has another
+      -- index under another key and each table needs its own
+      let bis ← match c.getObjVal? "blockIndices" with
+        | .ok b => (do pure (some (← (← asArr b).mapM asNatList)))
+        | .error _ => pure none
+      let nBlocks ← asNat (fldD c "blocks" (jNat 0))
+      let bidxViol := match bis with
+        | none => []
+        | some l =>
+          (if l.length == nBlocks then [] else ["received-table-names-one-block-index-per-block"]) ++
+          (if l.all (fun e => e == [1, 1]) then [] else ["received-table-block-indices-rebuilt-identically"])
       pure ((if issues.isEmpty then [] else ["received-table-diagnosis-clean"]) ++
-            (if same then [] else ["received-table-index-and-profile-rebuilt-identically"]) ++ inv.map (fun s => "received-table:" ++ s))
+            (if same then [] else ["received-table-index-and-profile-rebuilt-identically"]) ++ bidxViol ++ inv.map (fun s => "received-table:" ++ s))
     -- interrupted deliveries: packfile k cut after `c` bytes, handed to a copy of the destination as it
     -- was before that packfile. The framing is 8 header bytes, then each object with its type/length
     -- prefix; the object boundaries follow from the object sizes. A cut on a boundary is a complete
